@@ -1,13 +1,16 @@
-(** * C10: model of the CANDIDATE REPAIR of CsgTree::exchange (finding R1/R3)
-    and of the functions built on it.  NOT the code in /repo: this file and
-    CsgFixedProofs.v are not reachable from Properties_C10.v until the repair
-    is committed.
+(** * C10: model of CsgTree::exchange AS IT IS IN /repo since d70f3c2 (repair
+    of findings R1/R3) and of the functions built on it (CsgTree::simplify,
+    replace_and_simplify, simplify_up, simplify).  This is the model the
+    correspondence check runs against the real code.
 
-    Repair (patch /tmp/bwt/C10fix.patch): in the swap-to-lower branch, if the
-    higher node's CURRENT definition refers to an id that is not below
-    [node_id], do not move it down; store the representation [n] itself at
-    [node_id], re-point its table entry to [node_id] and alias the higher node
-    to [node_id].  Otherwise behave as before.
+    [Csg.v]'s [exchange chk] (and its callers) is the model of the code BEFORE
+    the repair; it is kept for the [*_before_repair_refuted] witnesses only.
+
+    Repair: in the swap-to-lower branch, if the higher node's CURRENT
+    definition refers to an id that is not below [node_id], it is not moved
+    down; the representation [n] itself is stored at [node_id], its table
+    entry is re-pointed to [node_id] and the higher node aliases [node_id].
+    Otherwise as before.
 
     The functions below [exchange_fx] are the text of Csg.v with
     [exchange chk] replaced by [exchange_fx] (generated once, by substitution). No proofs. *)
